@@ -562,8 +562,8 @@ impl<M: Hash + Clone + Eq, A: Ord + Hash + Clone> Orswot<M, A> {
 //@extract fn src/orswot.rs "Orswot" add_all
     pub fn add_all<I: IntoIterator<Item = M>>(&self, members: I, ctx: AddCtx<A>) -> /*@ (r: @*/ Op<M, A> /*@ ) @*/
     //@ ensures
-    //@     // one dot -- the one of the context handed in -- for all members the caller's iterator yields
-    //@     r is Add, r->Add_dot == ctx.dot,
+    //@     // one dot -- the one of the context handed in -- for exactly the members the caller's iterator yields
+    //@     r is Add, r->Add_dot == ctx.dot, r->Add_members@ == vstd::std_specs::iter::into_iter_remaining(members),
     {
         Op::Add {
             dot: ctx.dot,
@@ -574,7 +574,7 @@ impl<M: Hash + Clone + Eq, A: Ord + Hash + Clone> Orswot<M, A> {
 
 //@extract fn src/orswot.rs "Orswot" rm_all
     pub fn rm_all<I: IntoIterator<Item = M>>(&self, members: I, ctx: RmCtx<A>) -> /*@ (r: @*/ Op<M, A> /*@ ) @*/
-    //@ ensures r is Rm, r->Rm_clock == ctx.clock,
+    //@ ensures r is Rm, r->Rm_clock == ctx.clock, r->Rm_members@ == vstd::std_specs::iter::into_iter_remaining(members),
     {
         Op::Rm {
             clock: ctx.clock,
